@@ -48,6 +48,15 @@ def init_worker():
     di = pheno.datainfo
     col = di['APGR']
     ditype = pheno.replace(datainfo=di.set_column(col.replace(unit='kg')))
+    from dataclasses import dataclass
+    from typing import Optional
+    from pharmpy.workflows.results import Results
+
+    @dataclass(frozen=True)
+    class ToolRes(Results):            # a small tool Results object for Context.store_results
+        note: Optional[str] = None
+
+    _STATE['ToolRes'] = ToolRes
     _STATE['variants'] = {'pheno': pheno, 'init': init, 'data': data, 'ditype': ditype}
     _STATE['res'] = res
     _STATE['ctxcls'] = None
@@ -211,6 +220,35 @@ def exec_item(st, item, models):
         return _equiv(model, cands)
     if kind == 'getannot':
         return {'text': ctx.retrieve_annotation(item[1])}
+    if kind == 'subinit':
+        st.setdefault('subs', {})[item[1]] = ctx.create_subcontext(item[1])
+        st['subs'][item[1]].broadcast_message = lambda *a, **k: None
+        return None
+    if kind in ('substore', 'subretrieve'):
+        sub = st.get('subs', {}).get(item[1]) or ctx.get_subcontext(item[1])
+        if kind == 'substore':
+            ms = models[item[2]]
+            me = _as_entry(build_model(ms))
+            if ms['name'] == 'final':          # the dedicated API for the names 'final' / 'input'
+                sub.store_final_model_entry(me)
+            elif ms['name'] == 'input':
+                sub.store_input_model_entry(me)
+            else:
+                sub.store_model_entry(me)
+            return None
+        name = item[2]
+        me = (sub.retrieve_final_model_entry() if name == 'final' else
+              sub.retrieve_input_model_entry() if name == 'input' else sub.retrieve_model_entry(name))
+        cands = {mk: ms for mk, ms in models.items() if ms['name'] == name}
+        return _equiv(me, cands, want_name=name)
+    if kind in ('results', 'getresults'):
+        c = ctx if item[1] is None else (st.get('subs', {}).get(item[1]) or ctx.get_subcontext(item[1]))
+        if kind == 'results':
+            c.store_results(_STATE['ToolRes'](note=str(item[2])))
+            return None
+        r = c.retrieve_results()
+        note = r['note'] if isinstance(r, dict) else r.note
+        return {'res': int(note)}
     if kind == 'getlog':
         df = ctx.retrieve_log()
         cells = []
@@ -340,7 +378,7 @@ def run_phase(root, items, models, stop_at, logpath):
 
 
 # --------------------------------------------------------------------------- tree export
-BLOB_NAMES = re.compile(r'(model\.(ctl|mod)|results\.json|metadata\.json|data\d+\.datainfo|data\d+\.csv)$')
+BLOB_NAMES = re.compile(r'(model\.(ctl|mod)|results\.json|results\.csv|metadata\.json|data\d+\.datainfo|data\d+\.csv)$')
 
 
 def walk_tree(root, torn_paths=()):
@@ -408,7 +446,8 @@ def run_case(args):
                 new = data[base:]
                 rel = os.path.relpath(p, root)
                 if BLOB_NAMES.search(rel) and '.hash' not in rel.split('/'):
-                    cut = (len(new) * min(torn, 3)) // 4       # j of the 4 units of a blob
+                    units = 2 if re.search(r'results\.(json|csv)$', rel) else 4
+                    cut = (len(new) * min(torn, units - 1)) // units       # j of the units of a blob
                     if torn >= 4:
                         cut = len(new)
                 else:
@@ -433,5 +472,97 @@ def run_case(args):
         if not spec.get('keep'):
             shutil.rmtree(casedir, ignore_errors=True)
         return obs
+    except BaseException as e:
+        return {'harness_error': f'{type(e).__name__}: {e}', 'tb': traceback.format_exc()[-1500:]}
+
+
+# --------------------------------------------------------------------------- two concurrent writers
+def _writer(root, items, models, keys, start_r, logpath, seed, barrier=None):
+    """A writer process: fresh context object, wait for the start signal, run the items.  With [barrier] =
+    (event name, path suffix, my fd to signal, fd to wait on): stop inside the audit hook right before that
+    event until the other writer is there too (deterministic schedule for a check-then-act race)."""
+    try:
+        import random
+        import time
+        rnd = random.Random(seed)
+        fd = os.open(logpath, os.O_WRONLY | os.O_CREAT | os.O_TRUNC, 0o644)
+        st = {'root': root, 'ctx': None, 'keys': keys}
+        hs = {'on': False, 'met': False}
+
+        def hook(ev, args):
+            if not hs['on'] or ev not in WATCH:
+                return
+            p = args[1] if ev == 'os.symlink' else (args[0] if args else None)
+            if not _in_root(root, p if isinstance(p, str) else None):
+                return
+            if barrier and not hs['met'] and ev == barrier[0] and p.endswith(barrier[1]):
+                hs['met'] = True
+                os.write(barrier[2], b'x')
+                os.read(barrier[3], 1)
+            elif seed is not None:
+                time.sleep(rnd.random() * 0.002)        # vary the interleaving
+
+        sys.addaudithook(hook)
+        os.read(start_r, 1)
+        hs['on'] = True
+        out = []
+        for item in items:
+            try:
+                exec_item(st, item, models)
+                out.append({'ok': True})
+            except BaseException as e:
+                out.append({'ok': False, 'err': type(e).__name__, 'msg': str(e)[:120]})
+        hs['on'] = False
+        os.write(fd, json.dumps(out).encode())
+        os.close(fd)
+        os._exit(0)
+    except BaseException:
+        traceback.print_exc()
+        os._exit(3)
+
+
+def run_concurrent(args):
+    """args: (casedir, spec); spec: {'models', 'pre': items run first, 'a': items of writer A, 'b': items of writer B,
+    'seed': int, 'barrier': None | [event, path suffix]}"""
+    casedir, spec = args
+    try:
+        init_worker()
+        shutil.rmtree(casedir, ignore_errors=True)
+        os.makedirs(casedir)
+        root = os.path.join(casedir, 'r')
+        os.makedirs(root)
+        keys = _STATE['variants']
+        if spec['pre']:
+            run_phase(root, spec['pre'], spec['models'], -1, os.path.join(casedir, 'pre.jsonl'))
+        sys.stdout.flush()
+        sys.stderr.flush()
+        sa_r, sa_w = os.pipe()
+        sb_r, sb_w = os.pipe()
+        ab_r, ab_w = os.pipe()      # A signals, B waits
+        ba_r, ba_w = os.pipe()      # B signals, A waits
+        bar = spec.get('barrier')
+        pids = []
+        for who, items, start_r, sig_w, wait_r in (('a', spec['a'], sa_r, ab_w, ba_r), ('b', spec['b'], sb_r, ba_w, ab_r)):
+            pid = os.fork()
+            if pid == 0:
+                _writer(root, items, spec['models'], keys, start_r, os.path.join(casedir, who + '.json'),
+                        None if bar else spec.get('seed', 0) * 2 + (who == 'b'),
+                        (bar[0], bar[1], sig_w, wait_r) if bar else None)
+            pids.append(pid)
+        os.write(sa_w, b'g')
+        os.write(sb_w, b'g')
+        for pid in pids:
+            os.waitpid(pid, 0)
+        for x in (sa_r, sa_w, sb_r, sb_w, ab_r, ab_w, ba_r, ba_w):
+            os.close(x)
+        outs = {}
+        for who in ('a', 'b'):
+            try:
+                outs[who] = json.load(open(os.path.join(casedir, who + '.json')))
+            except Exception:
+                outs[who] = None
+        tree = walk_tree(root)
+        shutil.rmtree(casedir, ignore_errors=True)
+        return {'root': root, 'outs': outs, 'tree': tree}
     except BaseException as e:
         return {'harness_error': f'{type(e).__name__}: {e}', 'tb': traceback.format_exc()[-1500:]}
